@@ -9,6 +9,10 @@ git checkout -q -- src; git apply SEEDED/patch.diff || { echo "RESULT patch-does
 cargo build --offline >/dev/null 2>&1 && cargo build --offline --features verif-hooks >/dev/null 2>&1 || { echo "RESULT build-fails"; exit 1; }
 cargo test --offline $F --test seeded_demo >/tmp/vs-demo-with.$$ 2>&1; with=$?
 cargo test --offline --lib --test client --test gc --test sync >/tmp/vs-suite.$$ 2>&1; suite=$?
+if [ $suite -ne 0 ]; then  # network tests are occasionally flaky under load: one re-run
+  grep -E "^test .* FAILED" /tmp/vs-suite.$$ | head -5
+  cargo test --offline --lib --test client --test gc --test sync >/tmp/vs-suite.$$ 2>&1; suite=$?
+fi
 passed=$(grep -E "^test result" /tmp/vs-suite.$$ | awk '{s+=$4} END {print s}')
 git checkout -q -- src
 cargo test --offline $F --test seeded_demo >/tmp/vs-demo-without.$$ 2>&1; without=$?
